@@ -15,7 +15,7 @@ _INIT_POS = ('val', 'signed', 'n_word', 'n_frac', 'n_int', 'like', 'dtype')
 
 
 class StoreInfo(object):
-    __slots__ = ('route', 'carrier', 'index', 'raw', 'pre', 'post', 'values', 'shape', 'is_complex', 'init_args')
+    __slots__ = ('route', 'carrier', 'index', 'raw', 'pre', 'post', 'values', 'shape', 'is_complex', 'init_args', 'fxp_source', 'src_scaled', 'src_status')
 
 
 def _recv_snaps(ev):
@@ -33,13 +33,16 @@ def init_arguments(ev):
     return d
 
 
-def decode_store(ev, allow_raw=False, allow_fxp=False):
+def decode_store(ev, allow_raw=False, allow_fxp=False, allow_scaled_src=False):
     if ev.op not in STORE_OPS or ev.kind != 'method':
         return None
     si = StoreInfo()
     si.index = None
     si.raw = False
     si.init_args = None
+    si.fxp_source = False
+    si.src_scaled = False
+    si.src_status = None
     if ev.op == '__init__':
         d = init_arguments(ev)
         si.init_args = d
@@ -73,13 +76,23 @@ def decode_store(ev, allow_raw=False, allow_fxp=False):
         for o, p in zip(ev.operands, ev.pre):
             if o is si.carrier:
                 src = p
-        if src is None or src.is_complex or src.imag is not None or src.scaled or src.scale != 1 or src.bias != 0:
+        src_scaled = src is not None and (src.scaled or src.scale != 1 or src.bias != 0)
+        if src is None or src.is_complex or src.imag is not None or (src_scaled and not allow_scaled_src):
             raise Unsupported('Fxp source complex, scaled or not initialised')
         if si.raw:
             raise Unsupported('raw store')
         si.pre, si.post = _recv_snaps(ev)
         lsb = F(2) ** (-src.n_frac)
         si.values, si.shape, si.is_complex = [k * lsb for k in src.codes], tuple(src.shape), False
+        if src_scaled:
+            try:
+                a_, b_ = F(src.scale), F(src.bias)
+            except (TypeError, ValueError):
+                raise Unsupported('Fxp source with a non-numeric scale/bias')
+            si.values = [a_ * v + b_ for v in si.values]      # the value of a scaled source is scale*code*LSB + bias
+        si.fxp_source = True
+        si.src_scaled = src_scaled
+        si.src_status = dict(src.status)
         return si
     if si.raw and not allow_raw:
         raise Unsupported('raw store')
